@@ -208,7 +208,7 @@ def check_collect(chk, prefix="C05"):
             if isinstance(b, Ref) and s.get(b).get("__kind__") == "list" and not s.get(b)["items"]:
                 b = new_range(s, "list", "rlist", "batch", length=z3.IntVal(0))
             else:
-                chk.fault("collect: unexpected return value")
+                chk.prove(f"{prefix}.collect.total", s.pc, F, desc="_collect_checkpoint_batch returns the batch list it built (the model's range list, or the untouched empty list)")
                 continue
         def replay_native(inputs):
             from pyvc.check import native
